@@ -38,6 +38,9 @@ type Profile struct {
 	PrefixNamesP   float64          // probability that a run uses the prefix-rich alphabet (name-check refusals)
 	LongNamesP     float64          // probability that a run uses names longer than 127 bytes
 	BulkLogsP      float64          // probability that a transaction is a bulk reflog import (60-160 entries of one ref)
+	DeepInitP      float64          // probability that the initial stack is 12-23 uncompacted tables deep
+	InitMin        int              // the initial stack has at least this many transactions
+	ShortRangesP   float64          // probability that a range compaction covers just 2-3 tables at a random position of a deep stack
 }
 
 var defaultNames = []string{"HEAD", "refs/heads/a", "refs/heads/b", "refs/heads/c", "refs/tags/t", "refs/tags/u", "refs/x/y", "refs/x/z"}
@@ -289,6 +292,11 @@ func (g *genCtx) op(h int) OpSpec {
 	case OpCompactRange:
 		op.First = r.Intn(8)
 		op.Last = r.Intn(8)
+		if g.p.ShortRangesP > 0 && r.Bool(g.p.ShortRangesP) {
+			// taken modulo the stack depth at run time; 16 positions
+			op.First = r.Intn(16)
+			op.Last = op.First + 1 + r.Intn(2)
+		}
 	case OpReopen, OpSetAuto:
 		op.Auto = r.Bool(g.p.AutoP)
 	case OpRead:
@@ -388,11 +396,21 @@ func GenConc(prop string, seed uint64, p *Profile) *RunSpec {
 	spec := &RunSpec{Property: prop, Scenario: "S-CONC", Seed: seed, Cfg: g.cfg}
 	// initial stack
 	ni := r.Intn(p.InitMax + 1)
+	if p.InitMin > 0 {
+		ni = p.InitMin + r.Intn(max(1, p.InitMax-p.InitMin+1))
+	}
+	deepInit := p.DeepInitP > 0 && r.Bool(p.DeepInitP)
+	if deepInit {
+		ni = 12 + r.Intn(12)
+	}
 	if ni > 0 {
 		spec.Setup = append(spec.Setup, OpSpec{Kind: OpOpen, H: setupHandle, Auto: false})
 		for i := 0; i < ni; i++ {
 			tx := g.txn()
 			tx.Bad = ""
+			if (deepInit || p.InitMin > 0) && len(tx.Refs)+len(tx.Logs) == 0 {
+				tx.Refs = []RefSpec{{Name: g.names[r.Intn(len(g.names))], Kind: RefVal}}
+			}
 			spec.Setup = append(spec.Setup, OpSpec{Kind: OpAdd, H: setupHandle, Txns: []TxnSpec{tx}})
 		}
 	}
@@ -453,7 +471,7 @@ func AddTimeFaults(spec *RunSpec, seed uint64, estSteps int) {
 		if r.Bool(0.5) {
 			spec.Faults = append(spec.Faults, simrt.Fault{Kind: simrt.FaultClockJump, Task: t, Step: 2 + r.Intn(estSteps), Arg: int64(1+r.Intn(10)) * 1e9})
 		} else {
-			spec.Faults = append(spec.Faults, simrt.Fault{Kind: simrt.FaultSlow, Task: t, Step: 2 + r.Intn(estSteps), Arg: 1000, Arg2: int64(1 + r.Intn(8))})
+			spec.Faults = append(spec.Faults, simrt.Fault{Kind: simrt.FaultSlow, Task: t, Step: 2 + r.Intn(estSteps), Arg: 30000, Arg2: int64(1 + r.Intn(8))})
 		}
 	}
 }
